@@ -63,6 +63,10 @@ class C07(conncheck.ConnCheck):
             out.append({'name': 't/wide', 'server': SERVER_FULL + ['text-euro', 'empty-text', 'ping-empty', 'ping-125', 'ping-ping', 'ping-text-close',
                                                                   'close-3000', 'ping-then-bad'],
                         'handshake': ['hs-ok', 'hs-deflate'], 'app': ['close'], 'depth': None, 'max_dev': 1})
+        # the same over TLS (records, pending(), another close path)
+        for app in (APPS if tier == 'thorough' else APPS[:2]):
+            out.append({'name': 'tls/%s' % app, 'url': 'wss://example.com/x', 'server': SERVER_FULL, 'handshake': ['hs-ok', 'hs-deflate'], 'app': [app],
+                        'depth': None if tier == 'thorough' else 3, 'max_dev': 1})
         # time-outs must end the iteration by themselves: past the depth bound the server stays silent (not EOF)
         out.append({'name': 'close-timeout', 'server': ['eof', 'text', 'ping', 'close-1000', 'silence'], 'handshake': ['hs-ok'], 'app': ['close'],
                     'depth': 3, 'max_dev': 1, 'connect': {'close_timeout': 10}, 'timers': 'absolute', 'drop': (), 'silent_tail': True})
